@@ -9,6 +9,7 @@
 import VK.Model.STV
 import VK.Lemmas.Sum
 import VK.Lemmas.PSC
+import VK.Lemmas.FpvLink
 import VK.Model.Rules
 import Mathlib.Data.Rat.Floor
 import Mathlib.Algebra.Order.Floor.Ring
@@ -518,6 +519,47 @@ theorem C07_irv_majority (p : Profile) (tb : Option TB) (ω : STVOracle) (res : 
   obtain ⟨hx1, hx2⟩ := List.mem_filter.1 hx
   have : x = c := by simpa using hx2
   rw [← this]; exact hx1
+
+/-- **C07, unconditional form.** For every profile of untied ranked ballots over its declared
+candidates (non-empty rankings, one candidate per position, positive weights), every candidate
+subset, every `k`, seat count, mode, tiebreak setting and oracle value: a finished STV count with the
+Droop quota and the fractional transfer elects at least `min k (min |S| m)` members of `S` whenever
+the ballots solid for `S` weigh at least `k` thresholds. (`hfpv` is discharged by `fpv_link`.) -/
+theorem C07_droop_psc (cfg : STVCfg) (p : Profile) (ω : STVOracle) (res : STVResult)
+    (Sset : List Cand) (k : Nat)
+    (hquota : cfg.quota = .droop) (hf : cfg.transfer = .fractional)
+    (hSc : ∀ c ∈ Sset, c ∈ p.cands) (hS : Sset.Nodup) (hc : p.cands.Nodup)
+    (hw : ∀ b ∈ p.ballots, 0 < b.weight)
+    (hne : ∀ b ∈ p.ballots, b.ranking ≠ [])
+    (hsingle : ∀ b ∈ p.ballots, ∀ s ∈ b.ranking, s.length = 1)
+    (hcast : ∀ b ∈ p.ballots, ∀ c ∈ b.ranking.flatten, c ∈ p.cands)
+    (hrun : stvRun cfg p ω = .ok res)
+    (hK : (k : Rat) * (res.threshold : Rat) ≤
+      rsum ((p.ballots.filter (fun b => solidB Sset b.ranking.flatten)).map (·.weight))) :
+    min k (min Sset.length cfg.m) ≤ ((electedOf res.states).filter (fun c => Sset.contains c)).length :=
+  C07_droop_psc_fractional cfg p ω res Sset k hquota hf hSc hS hc hw (fpv_link p hne hsingle hcast) hrun hK
+
+/-- the full statement `DroopPSC` restricted to the fractional rule and to profiles of untied ranked
+ballots is exactly what has been proved -/
+theorem C07_DroopPSC_holds_for_untied_profiles :
+    ∀ (cfg : STVCfg) (p : Profile) (ω : STVOracle) (res : STVResult) (S : List Cand) (k : Nat),
+    cfg.quota = .droop → cfg.transfer = .fractional → S.Nodup → (∀ c ∈ S, c ∈ p.cands) →
+    (∀ b ∈ p.ballots, 0 < b.weight) →
+    p.cands.Nodup → (∀ b ∈ p.ballots, b.ranking ≠ []) → (∀ b ∈ p.ballots, ∀ s ∈ b.ranking, s.length = 1) →
+    (∀ b ∈ p.ballots, ∀ c ∈ b.ranking.flatten, c ∈ p.cands) →
+    stvRun cfg p ω = .ok res →
+    (k : Rat) * (res.threshold : Rat) ≤
+      rsum ((p.ballots.filter (fun b => solidB S b.ranking.flatten)).map (·.weight)) →
+    min k (min S.length cfg.m) ≤ ((electedOf res.states).filter (fun c => S.contains c)).length :=
+  fun cfg p ω res S k hq hf hS hSc hw hc hne hs hcast hrun hK =>
+    C07_droop_psc cfg p ω res S k hq hf hSc hS hc hw hne hs hcast hrun hK
+
+/-- non-vacuity: a concrete count in which a coalition with two quotas gets its two seats -/
+def exPscProfile : Profile :=
+  Profile.mk [Ballot.mk [[0], [1]] 4 [], Ballot.mk [[1], [0]] 2 [], Ballot.mk [[2]] 2 []] [0, 1, 2]
+example : (stvRun { m := 2 } exPscProfile {}).isOk = true := by decide +kernel
+example : firstPlaceVotes exPscProfile = .ok (tallies (stvInitState exPscProfile).bs exPscProfile.cands) := by
+  decide +kernel
 
 /-- non-vacuity of `Solid` -/
 example : Solid [1, 0] [0, 1, 2] := (solidB_iff _ _).1 (by decide)
